@@ -378,13 +378,23 @@ def classify(h, r):
 # concrete playback
 
 
+def extract_playback_tests(text):
+    """All generated unit tests that belong to FAILED checks (Kani also prints one per satisfied
+    cover; those pass natively by construction and must not be mistaken for the counterexample)."""
+    blocks = re.findall(r"```\s*\n(.*?)```", text, re.S)
+    out = []
+    for b in blocks:
+        m = re.search(r"/// Check for `([a-z_]+)`", b)
+        kind = m.group(1) if m else "unknown"
+        if kind == "cover":
+            continue
+        out.append(b)
+    return out
+
+
 def extract_playback_test(text):
-    m = re.search(r"```\s*\n(.*?)```", text, re.S)
-    if m:
-        return m.group(1)
-    # fallback: find #[test] block
-    m = re.search(r"(/// Test generated for harness.*?\n}\n)", text, re.S)
-    return m.group(1) if m else None
+    t = extract_playback_tests(text)
+    return t[0] if t else None
 
 
 def native_replay(h, overlay: Path, target: Path, logdir: Path, test_src: str, profile_release=False):
@@ -472,12 +482,26 @@ def main():
         groups.setdefault(g, []).append(h)
         h["overlay"] = str(overlay / g)
     try:
-        for g, ghs in groups.items():
-            members = set(x["crate"] for x in ghs)
-            if g == "leaf" and "turmoil-io-uring" in members:
-                members.add("turmoil-fs")
-            make_overlay(overlay / g, sorted(members), use_real_indexmap=args.real_indexmap,
-                         tokio_model=(g == "core" and tokio_model_needed("turmoil")))
+        # /repo is read exactly once, here, under a lock: a seeded-change run (bin/vseed) patches
+        # /repo only for the duration of this copy
+        import fcntl
+        lockf = None
+        if not os.environ.get("VERIF_LOCK_HELD"):
+            lockf = open("/var/tmp/turmoil-verif.repo.lock", "w")
+            fcntl.flock(lockf, fcntl.LOCK_EX)
+        try:
+            for g, ghs in groups.items():
+                members = set(x["crate"] for x in ghs)
+                if g == "leaf" and "turmoil-io-uring" in members:
+                    members.add("turmoil-fs")
+                make_overlay(overlay / g, sorted(members), use_real_indexmap=args.real_indexmap,
+                             tokio_model=(g == "core" and tokio_model_needed("turmoil")))
+        finally:
+            if lockf:
+                fcntl.flock(lockf, fcntl.LOCK_UN)
+                lockf.close()
+            if os.environ.get("VERIF_COPIED_FLAG"):
+                Path(os.environ["VERIF_COPIED_FLAG"]).write_text("copied")
         results = run_all(hs, overlay, logdir, args)
         rc = report(pid, args, hs, results, overlay, logdir, seed, t_start)
     finally:
@@ -691,7 +715,8 @@ def replay_violation(pid, h, r, overlay, logdir, args):
         pr = run_harness(h, overlay, target, logdir, default_timeout(h, args.tier) * 2, h["mem_gb"] or 10,
                          playback=True)
         text = Path(pr["log"]).read_text(errors="replace")
-        test_src = extract_playback_test(text)
+        tests = extract_playback_tests(text)
+        test_src = "\n".join(tests) if tests else None
         rpath = rdir / (h["name"] + ".rs")
         hdr = ("// Counterexample found by Kani for harness %s (property %s).\n// Failing checks: %s\n"
                "// Replay: %s/bin/vreplay %s %s\n" % (h["full"], pid, r.get("why", "")[:500].replace("\n", " "),
@@ -704,12 +729,19 @@ def replay_violation(pid, h, r, overlay, logdir, args):
             return rep
         rpath.write_text(hdr + test_src)
         rep["path"] = str(rpath)
-        failed, detail = native_replay(h, overlay, target, logdir, test_src)
-        rep["detail"] = detail
+        # one generated test per failed check: the counterexample reproduces if any of them fails natively
+        failed = None
+        for t in tests[:4]:
+            f1, detail = native_replay(h, overlay, target, logdir, t)
+            rep["detail"] = detail
+            if f1:
+                failed = True
+                f2, d2 = native_replay(h, overlay, target, logdir, t, profile_release=True)
+                rep["release_reproduced"] = f2
+                break
+            if f1 is False and failed is None:
+                failed = False
         rep["reproduced"] = failed
-        if failed:
-            f2, d2 = native_replay(h, overlay, target, logdir, test_src, profile_release=True)
-            rep["release_reproduced"] = f2
     except Exception as e:  # noqa
         rep["detail"] = "replay machinery error: %r" % (e,)
     return rep
